@@ -1,6 +1,8 @@
 package tsrun
 
 import (
+	"context"
+	"time"
 	"bufio"
 	_ "embed"
 	"encoding/json"
@@ -9,6 +11,7 @@ import (
 	"os/exec"
 	"path/filepath"
 
+	"verifharness/evid"
 	"verifharness/gen/rt"
 )
 
@@ -71,8 +74,13 @@ func Run(dir string, jobs []Job, f func(o *Out)) error {
 	}
 	bw.Flush()
 	jf.Close()
-	cmd := exec.Command("node", rp, jp, op)
-	cmd.Dir = dir
+	ctx, cancel := context.WithTimeout(context.Background(), 30*time.Minute)
+	defer cancel()
+	node, lerr := exec.LookPath("node")
+	if lerr != nil {
+		return lerr
+	}
+	cmd := evid.Guarded(ctx, 1800, dir, nil, node, rp, jp, op)
 	out, err := cmd.CombinedOutput()
 	if err != nil {
 		s := string(out)
